@@ -586,6 +586,7 @@ func Run(r *ev.Run) {
 	tmpl := &alphabet{name: "template", atoms: tmplAtoms}
 	jsn := &alphabet{name: "json", atoms: jsonAtoms}
 	expr := &alphabet{name: "expression", atoms: exprAtoms}
+	dirv := &alphabet{name: "directive", atoms: directiveAtoms}
 
 	type job struct {
 		a       *alphabet
@@ -609,6 +610,9 @@ func Run(r *ev.Run) {
 			{jsn, 6, identity, eJSON | eJSONExpr},
 			{expr, 5, identity, eLexConfig | eExpr | eTraversal},
 			{expr, 4, attr, eConfig},
+			{dirv, 5, identity, eLexTemplate | eTemplate},
+			{dirv, 4, quoted, eLexConfig | eConfig},
+			{dirv, 4, heredoc, eLexConfig | eConfig},
 		}
 	} else {
 		jobs = []job{
@@ -621,6 +625,9 @@ func Run(r *ev.Run) {
 			{jsn, 4, identity, eJSON | eJSONExpr},
 			{expr, 4, identity, eLexConfig | eExpr | eTraversal},
 			{expr, 3, attr, eConfig},
+			{dirv, 4, identity, eLexTemplate | eTemplate},
+			{dirv, 3, quoted, eLexConfig | eConfig},
+			{dirv, 3, heredoc, eLexConfig | eConfig},
 		}
 	}
 
